@@ -356,7 +356,8 @@ bool Terminal::Impl::executeRunHistoryCmd(SessionContext *s, const Args &args)
                 is_index_valid = true;
             }
         } else {
-            if (s->history.size() >= static_cast<size_t>(-index)) {
+            //! 不能写成 -index：index 为 INT_MIN 时取负会溢出
+            if (static_cast<long long>(s->history.size()) + index >= 0) {
                 s->curr_input = s->history.at(s->history.size() + index);
                 is_index_valid = true;
             }
